@@ -10,7 +10,7 @@ CONSTANTS
   FnFilter = "nogeneric3"
   Shapes = {"plain"}
   MaxSess = 2
-  FixProtoCache = FALSE
+  FixProtoCache = TRUE
   Bug = "none"
 INVARIANT EmitLib
 INVARIANT EmitDone
